@@ -5,7 +5,9 @@ import os, re, json
 
 RULE = ("every rule sequence of Firewall.tla's lattice (all single rules over direction x protocol x port kind x groups x "
         "host x remote CIDR x CA name/sha x (environment, local CIDR); every 'sibling pair' = a rule followed by the same rule with "
-        "one field changed; seeded samples of sequences of 2 and 3 rules in both directions) is "
+        "one field changed; every 'bucket pair' = two rules in one direction/proto/port/CA bucket with overlapping remote "
+        "selectors (nested remote CIDRs, host and groups of one peer, nested group lists) and different local CIDRs (nested, "
+        "disjoint, default, any); seeded samples of sequences of 2 and 3 rules in both directions) is "
         "one TLC state whose expected verdict sets come from Allowed(rules, pkt, peer, dir); each is loaded into a real Firewall "
         "with AddRule and every (packet shape, peer) pair is put through the real Drop in both directions on a fresh conntrack, "
         "followed by the reverse direction for the 'then tracked' effect; distinct = distinct rule sequences")
@@ -67,9 +69,9 @@ def run(ctx):
     else:
         n1 = fw_vectors(ctx, 'Vec_Firewall_C16.cfg', init='InitC16SingleTA')
         n1 += fw_vectors(ctx, 'Vec_Firewall_C16.cfg', init='InitC16SingleTB', append=True)
-    n2 = fw_vectors(ctx, 'Vec_Firewall_C16_multi.cfg', nsample=2000 if ctx.quick else 30000, append=True)
+    n2 = fw_vectors(ctx, 'Vec_Firewall_C16_multi.cfg', nsample=1500 if ctx.quick else 30000, append=True)
     ctx.extra['vectors_single'] = n1
-    ctx.extra['vectors_multi'] = n2
+    ctx.extra['vectors_multi'] = n2    # sampled pairs/triples + sibling pairs + bucket pairs
     res = ctx.gotest('.', 'TestVerif_C16', also=('fw',), timeout=1800)
     ctx.take_mismatches(res)
     ctx.traces += n1 + n2
